@@ -276,12 +276,12 @@ Proof. intros [A B C]. constructor; auto. Qed.
 
 Lemma parse_loop_sim rx ps : forall st st',
   SInv st -> Forall (proto_wf st) ps -> protos_distinct ps ->
-  parse_loop rx st ps = inl st' ->
+  parse_loop rx st (stmts ps) = inl st' ->
   kinds (p_rules st') = accept_loop (kinds (p_rules st)) (p_expected st) (map pkind ps) /\ SInv st'.
 Proof.
   induction ps as [|p r IH]; intros st st' Hi Hwf Hdis E.
   - simpl in E. inversion E; subst. auto.
-  - cbn [parse_loop] in E. destruct (parse_step rx st p) as [st1|x] eqn:Es; [|discriminate].
+  - cbn [stmts map parse_loop] in E. fold (stmts r) in E. destruct (parse_step rx st p) as [st1|x] eqn:Es; [|discriminate].
     inversion Hwf as [|? ? Hp Hr]; subst. destruct Hdis as [Hd1 Hd2].
     destruct (parse_step_sim rx st p st1 Hi Hp Es) as (A & B & C & K1 & K2 & U).
     cbn [map]. rewrite accept_loop_step, A. cbn [fst snd].
@@ -304,10 +304,10 @@ Qed.
    environment) and whose style rules use only prefixes of the environment; and its final _cleanNamespaces is a no-op *)
 Theorem parse_refines_main rx env ps rs e :
   Forall (proto_wf (mkP [] env 0)) ps -> protos_distinct ps ->
-  parse_sheet rx env ps = inl (rs, e) -> kinds rs = accept_kinds (map pkind ps) /\ e = None.
+  parse_sheet rx env (stmts ps) = inl (rs, e) -> kinds rs = accept_kinds (map pkind ps) /\ e = None.
 Proof.
   intros Hwf Hdis. unfold parse_sheet.
-  destruct (parse_loop rx (mkP [] env 0) ps) as [st|x] eqn:E; [|discriminate].
+  destruct (parse_loop rx (mkP [] env 0) (stmts ps)) as [st|x] eqn:E; [|discriminate].
   assert (Hi : SInv (mkP [] env 0)) by (constructor; reflexivity).
   destruct (parse_loop_sim rx ps _ _ Hi Hwf Hdis E) as [A [B1 B2 B3]].
   rewrite (clean_namespaces_id _ B1 B3). intros H. inversion H; subst. split; auto.
@@ -359,7 +359,7 @@ Qed.
 
 Lemma parse_loop_lenient ps : forall st, exists st', parse_loop false st ps = inl st'.
 Proof.
-  induction ps as [|p r IH]; intros st; simpl; [eauto|].
+  induction ps as [|[p|g] r IH]; intros st; simpl; [eauto| |apply IH].
   destruct (parse_step_lenient st p) as [st1 ->]. apply IH.
 Qed.
 
@@ -384,10 +384,10 @@ Qed.
    its lenient mode, with exactly the same rule kinds *)
 Theorem sheet_reparse_main rs :
   valid_sheet rs = true -> dist rs = true -> udist rs = true ->
-  exists rs', parse_sheet false [] (map proto_of_rule rs) = inl (rs', None) /\ kinds rs' = kinds rs.
+  exists rs', parse_sheet false [] (stmts (map proto_of_rule rs)) = inl (rs', None) /\ kinds rs' = kinds rs.
 Proof.
   intros Hv Hd Hu. unfold parse_sheet.
-  destruct (parse_loop_lenient (map proto_of_rule rs) (mkP [] [] 0)) as [st E].
+  destruct (parse_loop_lenient (stmts (map proto_of_rule rs)) (mkP [] [] 0)) as [st E].
   assert (Hwf : Forall (proto_wf (mkP [] [] 0)) (map proto_of_rule rs)).
   { rewrite Forall_forall. intros q Hq. apply in_map_iff in Hq as (x & <- & _).
     split; intros _; [split|]; reflexivity. }
